@@ -16,13 +16,15 @@ def run(ctx: common.Ctx):
         'when the generated scripts reach them; their models live with those properties',
         'known finding D15: RawModel.detach cannot tell a free-standing node from a child spanning the whole '
         'store of its free-standing parent (C19_reuse_refused_refuted / _partial)']
-    ctx.require_coq(['properties/C19'], extra_targets=['RepeatedRun'])
+    ctx.require_coq(['properties/C19'], extra_targets=['RepeatedRun', 'NumExprStepsRun'])
     c03.run_slots(ctx, ('C19',), ctx.scale(210, 1500), 8)
     probe_ancestor_into_descendant(ctx)
     probe_whole_field_refusals(ctx)
     probe_mapping_batch_refusals(ctx)
     probe_extended_slice_refusals(ctx)
     probe_unconsumable_operands(ctx)
+    probe_spent_left_operand(ctx)
+    corr_arith_operands(ctx)
 
 
 def probe_extended_slice_refusals(ctx: common.Ctx):
@@ -363,6 +365,224 @@ def probe_unconsumable_operands(ctx: common.Ctx):
             else:
                 # accepted: then the result must at least be a document that says what it prints (not this property's)
                 ctx.count('unconsumable_operand_accepted')
+
+
+SIG_SPENT_LEFT = 'C19:refusal-not-atomic:spent-left-operand'     # proposed known finding (fixes/number-expr-spent-left-operand.*)
+SPENT_LEFT_TEXT = '2000-01-01 *\n    Assets:Foo       7 USD\n    Assets:Bar\n'
+
+
+def probe_spent_left_operand(ctx: common.Ctx):
+    """Directed: the LEFT operand of an in-place operator is a NumberExpr whose tree was legally moved into a number of a
+    ledger. Every `left OP= x` must be refused (it is: ValueError) with that ledger exactly as it was. `*=` / `/=` on a
+    sum write the parentheses into the ledger (through the tree's token store) before the splice into the left operand's
+    own, empty store raises: model C19_arith_spent_self_refuted. That outcome is reported under SIG_SPENT_LEFT once the
+    signature is registered in known_findings.json (until then it is only counted, so that the check keeps its exit
+    status on the unchanged tree); any other change of the ledger by a refused call is a violation."""
+    import decimal
+    import operator
+    from autobean_refactor import models, parser as parser_lib
+    from harness import gen_docs
+    parser = parser_lib.Parser()
+    registered = any(k.get('signature') == SIG_SPENT_LEFT for k in common.load_known())
+    ops = [('+=', operator.iadd), ('-=', operator.isub), ('*=', operator.imul), ('/=', operator.itruediv)]
+    for left in ('1 + 2', '4', '2 * 3', '8 / 2 - 1', '(1 + 2)', '1 - -2'):
+        for opn, fn in ops:
+            f = gen_docs.parse_ok(SPENT_LEFT_TEXT, True)
+            if f is None:
+                continue
+            receiver = f.raw_directives[0].postings[0].raw_number
+            try:
+                donor = parser.parse(left, models.NumberExpr)
+                receiver.raw_number_add_expr = donor.raw_number_add_expr
+            except Exception:
+                ctx.count('spent_left_operand_not_constructible')
+                continue
+            snap = lambda: (gen_docs.print_model(f), [id(t) for t in f.token_store], gen_docs.print_model(receiver),
+                            id(receiver.raw_number_add_expr), treewalk_dump(f))
+            before = snap()
+            ctx.count('spent_left_operand_probes')
+            w = {'text': SPENT_LEFT_TEXT, 'moved_in': left,
+                 'op': f'donor = parse({left!r}, NumberExpr); postings[0].raw_number.raw_number_add_expr = donor.raw_number_add_expr; donor {opn} 3'}
+            try:
+                fn(donor, decimal.Decimal(3))
+            except Exception as x:
+                try:
+                    after = snap()
+                except Exception as y:
+                    ctx.monitor_failure(c03.SIG_ATOMIC, f'<spent {left!r}> {opn} 3 raised {type(x).__name__} and left a ledger that cannot be read ({type(y).__name__})', w)
+                    continue
+                if after == before:
+                    continue
+                line = after[0].splitlines()[1]
+                expected = f'    Assets:Foo       ({left}) USD'
+                if opn in ('*=', '/=') and line == expected and after[2:] == before[2:]:
+                    ctx.count('spent_left_operand_refusal_wrote_parentheses')
+                    if registered:
+                        ctx.monitor_failure(SIG_SPENT_LEFT, f'<NumberExpr {left!r} whose tree was moved into a posting> {opn} 3 raised {type(x).__name__} '
+                                            f'but the posting now prints {line!r}: parentheses that no node owns', w)
+                else:
+                    ctx.monitor_failure(c03.SIG_ATOMIC, f'<spent {left!r}> {opn} 3 raised {type(x).__name__} but the ledger now prints {after[0]!r}', w)
+            else:
+                ctx.count('spent_left_operand_accepted')
+
+
+ARITH_PREAMBLE = 'From AB Require Import Prelude NumExpr NumExprRun NumExprSteps NumExprStepsRun.'
+SIG_ARITH_CORR = 'C19:arith-operand:model-vs-implementation'
+
+
+def corr_arith_operands(ctx: common.Ctx):
+    """Correspondence of NumExprSteps.v (the in-place operators statement by statement) with the implementation: for every
+    left operand text x operator x right operand kind - spent expression, live expressions (free-standing, attached in
+    another ledger, the left operand itself), ints / Decimals, NaN, a str - the call is made on the posting's number of a
+    parsed ledger and what the implementation did (exception class; raw texts of ALL tokens of the store afterwards; where
+    self starts; self's tree with its gaps) is compared with `s_idunder VCode` evaluated inside Coq on what was read before
+    the call.  A refusal that leaves tokens behind, a refusal the model does not have, an accepted call whose parentheses or
+    spacing differ: all are disagreements."""
+    import decimal
+    import operator
+    from autobean_refactor import models, parser as parser_lib
+    from harness import c13, gen_docs
+    from harness.common import coq_str, coq_list, coq_z
+    D = decimal.Decimal
+    parser = parser_lib.Parser()
+
+    def spent():
+        donor = models.NumberExpr.from_value(D(5))
+        receiver = models.NumberExpr.from_value(D(7))
+        receiver.raw_number_add_expr = donor.raw_number_add_expr
+        return donor
+
+    def attached(t):
+        g = gen_docs.parse_ok(f'2001-02-03 *\n    Assets:Other    {t} EUR\n    Assets:Rest\n', True)
+        return g.raw_directives[0].postings[0].raw_number
+
+    def read(expr):
+        """(raw texts before first_token, tree, raw texts after last_token, raw texts of the whole store)"""
+        _, tree, _ = c13.observe(expr)
+        toks = list(expr.token_store)
+        i0 = next(i for i, t in enumerate(toks) if t is expr.first_token)
+        i1 = next(i for i, t in enumerate(toks) if t is expr.last_token)
+        texts = [t.raw_text for t in toks]
+        return texts[:i0], tree, texts[i1 + 1:], texts
+
+    def strs(l):
+        return coq_list(coq_str(x) for x in l)
+
+    def scalar(d):
+        d = D(d)
+        if d.is_nan():
+            return 'ONaN'
+        return f'(OScalar {common.coq_bool(d < 0)} {coq_str(format(d.copy_abs(), "f"))})'
+
+    def live(expr):
+        p, t, q, _ = read(expr)
+        return f'(live {strs(p)} {c13.coq_tree(t)} {strs(q)})'
+
+    # (name, factory number -> python operand, python operand -> Coq operand [called BEFORE the operator])
+    operands = [
+        ('spent', lambda n: spent(), lambda o: '(OExpr Spent)'),
+        ('live 7', lambda n: parser.parse('7', models.NumberExpr), live),
+        ('live -2', lambda n: parser.parse('-2', models.NumberExpr), live),
+        ('live 3 - 1', lambda n: parser.parse('3 - 1', models.NumberExpr), live),
+        ('live 2*3', lambda n: parser.parse('2*3', models.NumberExpr), live),
+        ('live (4)', lambda n: parser.parse('(4)', models.NumberExpr), live),
+        ('attached 6 / 3', lambda n: attached('6 / 3'), live),
+        ('attached 1 + 1', lambda n: attached('1 + 1'), live),
+        ('self', lambda n: n, live),
+        ('int 3', lambda n: 3, scalar),
+        ('int -4', lambda n: -4, scalar),
+        ('Decimal 1E+3', lambda n: D('1E+3'), scalar),
+        ('Decimal -0.50', lambda n: D('-0.50'), scalar),
+        ('Decimal NaN', lambda n: D('NaN'), scalar),
+        ('str', lambda n: 's', lambda o: 'ONotNumber'),
+        ('float', lambda n: 1.5, lambda o: 'ONotNumber'),
+    ]
+    lefts = ['1 + 2', '4', '-3', '2 * 3', '8 / 2 - 1', '(1 + 2)', '- (1 + 2)', '1 - -2', '1+2']
+    ops = [('+=', operator.iadd, 'OpAdd'), ('-=', operator.isub, 'OpSub'), ('*=', operator.imul, 'OpMul'), ('/=', operator.itruediv, 'OpDiv')]
+    cases, wits = [], []
+    for left in lefts:
+        text = f'2000-01-01 *\n    Assets:Foo       {left} USD\n    Assets:Bar\n'
+        for opn, fn, opc in ops:
+            for oname, mk, to_coq in operands:
+                w = {'text': text, 'op': f'postings[0].raw_number {opn} <{oname}>'}
+                f = gen_docs.parse_ok(text, True)
+                if f is None:
+                    continue
+                number = f.raw_directives[0].postings[0].raw_number
+                try:
+                    operand = mk(number)
+                    coq_operand = to_coq(operand)
+                    pre, tree, post, before = read(number)
+                except Exception as x:
+                    ctx.fail('corr', SIG_ARITH_CORR, f'{left!r} {opn} <{oname}>: the operands cannot be read before the call ({type(x).__name__}: {x})', w)
+                    continue
+                exc = None
+                try:
+                    r = fn(number, operand)
+                    if r is not number:
+                        ctx.fail('corr', SIG_ARITH_CORR, f'{left!r} {opn} <{oname}> did not return self', w)
+                        continue
+                except Exception as x:
+                    exc = common.exn_name(x)
+                try:
+                    pre2, tree2, _, after = read(number)
+                except Exception as x:
+                    ctx.fail('corr', SIG_ARITH_CORR, f'{left!r} {opn} <{oname}> ({"raised " + exc if exc else "returned"}): afterwards the left operand is no '
+                             f'longer a tree over its store ({type(x).__name__}: {x}); the posting prints {gen_docs.print_model(f).splitlines()[1]!r}', w)
+                    continue
+                cases.append(f'(mkacase {strs(pre)} {c13.coq_tree(tree)} true {strs(post)} {strs(before)} {opc} {coq_operand} '
+                             f'{common.coq_opt(exc)} {strs(after)} {coq_z(len(pre2))} {c13.coq_tree(tree2)})')
+                wits.append((w, left, opn, oname, exc, gen_docs.print_model(f).splitlines()[1]))
+                ctx.dist('arith-operand=' + oname.split()[0] + (':refused' if exc else ':accepted'))
+    # the LEFT operand is itself spent: its tree was moved into the posting's number; what is read (and compared) is the
+    # receiving document and the tree both objects still point at
+    for left in lefts:
+        for opn, fn, opc in ops:
+            for oname, mk, to_coq in operands:
+                if oname not in ('spent', 'live 3 - 1', 'attached 1 + 1', 'int 3', 'Decimal NaN', 'str'):
+                    continue
+                w = {'spent_left': left, 'op': f'<NumberExpr {left!r} whose tree was moved into postings[0].raw_number> {opn} <{oname}>'}
+                f = gen_docs.parse_ok(SPENT_LEFT_TEXT, True)
+                try:
+                    receiver = f.raw_directives[0].postings[0].raw_number
+                    donor = parser.parse(left, models.NumberExpr)
+                    receiver.raw_number_add_expr = donor.raw_number_add_expr
+                    operand = mk(receiver)
+                    coq_operand = to_coq(operand)
+                    pre, tree, post, before = read(receiver)
+                    child = donor.raw_number_add_expr
+                except Exception as x:
+                    ctx.fail('corr', SIG_ARITH_CORR, f'spent {left!r} {opn} <{oname}>: cannot be set up ({type(x).__name__}: {x})', w)
+                    continue
+                exc = None
+                try:
+                    fn(donor, operand)
+                except Exception as x:
+                    exc = common.exn_name(x)
+                try:
+                    pre2, tree2, _, after = read(receiver)
+                    if exc and (donor.raw_number_add_expr is not child or receiver.raw_number_add_expr is not child):
+                        raise c13.Malformed('the refused call replaced the tree of the left operand')
+                    if not exc:
+                        tree2 = None
+                except Exception as x:
+                    ctx.fail('corr', SIG_ARITH_CORR, f'spent {left!r} {opn} <{oname}> ({"raised " + exc if exc else "returned"}): afterwards the receiving '
+                             f'expression is no longer a tree over its store ({type(x).__name__}: {x})', w)
+                    continue
+                if tree2 is None:
+                    ctx.fail('corr', SIG_ARITH_CORR, f'spent {left!r} {opn} <{oname}> was accepted (the model refuses every call on a spent left operand)', w)
+                    continue
+                cases.append(f'(mkacase {strs(pre)} {c13.coq_tree(tree)} false {strs(post)} {strs(before)} {opc} {coq_operand} '
+                             f'{common.coq_opt(exc)} {strs(after)} {coq_z(len(pre2))} {c13.coq_tree(tree2)})')
+                wits.append((w, 'spent ' + left, opn, oname, exc, gen_docs.print_model(f).splitlines()[1]))
+                ctx.dist('arith-spent-left-operand=' + oname.split()[0] + (':refused' if exc else ':accepted'))
+    bad = ctx.run_coq_cases('arith', ARITH_PREAMBLE, 'acase', 'check_case', cases, chunk=120)
+    for i in bad:
+        w, left, opn, oname, exc, line = wits[i]
+        ctx.fail('corr', SIG_ARITH_CORR, f'{left!r} {opn} <{oname}>: the implementation {"raised " + exc if exc else "returned"} and the posting prints '
+                 f'{line!r}; the statement-order model (NumExprSteps.s_idunder VCode) says otherwise', w)
+    ctx.count('traces_validated_against_impl', len(cases) - len(bad))
+    ctx.count('arith_operand_cases', len(cases))
 
 
 def treewalk_dump(root):
